@@ -124,7 +124,11 @@ Definition est_latest_end (inp : input) (s : state) (mv : move) : bool :=
                            | Some l => l <? en | None => false end).
 
 (* max-wait estimates: simulation with the early break "all stops of the unit
-   placed and the arrival at a planned stop is unchanged" *)
+   placed and the arrival at AND THE END OF a planned stop are unchanged".
+   The comparison of the ends was added by the repair of the duration-group
+   defect (with duration groups the time spent at a stop depends on the stop in
+   front of it, so an unchanged arrival does not imply an unchanged end);
+   [check_end = false] is the code before that repair (arrival only). *)
 (* accumulated wait cached at the stop in front of x on the old route *)
 Fixpoint prev_acc_aux (p : cell) (l : list cell) (x : nat) : Z :=
   match l with
@@ -136,7 +140,7 @@ Definition prev_acc (old : list cell) (x : nat) : Z :=
 
 (* [guard acc x]: extra condition of the early break (the vehicle constraint only
    stops when the wait accumulated so far did not grow w.r.t. the cached one) *)
-Fixpoint sim_wait (inp : input) (us : list nat) (old : list cell) (endv : Z) (prev : nat)
+Fixpoint sim_wait (check_end : bool) (inp : input) (us : list nat) (old : list cell) (endv : Z) (prev : nat)
          (stops : list nat) (to_place : nat) (acc : Z)
          (violated : Z -> Z -> nat -> bool)   (* accumulated wait, this wait, stop *)
          (guard : Z -> nat -> bool)
@@ -147,32 +151,46 @@ Fixpoint sim_wait (inp : input) (us : list nat) (old : list cell) (endv : Z) (pr
       let '(_, arrival, start, en) := temporal_values inp endv prev x in
       let planned := negb (mem_nat x us) in
       let to_place' := if planned then to_place else (to_place - 1)%nat in
-      if (Nat.eqb to_place' 0) && planned && (arrival =? c_arrival (cell_of_stop old x)) && guard acc x then false
+      if (Nat.eqb to_place' 0) && planned && (arrival =? c_arrival (cell_of_stop old x)) &&
+         (negb check_end || (en =? c_end (cell_of_stop old x))) && guard acc x then false
       else
         let wait := start - arrival in
         let acc' := acc + wait in
         if violated acc' wait x then true
-        else sim_wait inp us old en x rest to_place' acc' violated guard
+        else sim_wait check_end inp us old en x rest to_place' acc' violated guard
   end.
 
-Definition est_max_wait_stop (inp : input) (s : state) (mv : move) : bool :=
+Definition est_max_wait_stop_gen (check_end : bool) (inp : input) (s : state) (mv : move) : bool :=
   let h := hypo_of inp s mv in
   let us := unit_stops inp (mv_unit mv) in
-  sim_wait inp us (h_old h) (c_end (h_prev h)) (c_stop (h_prev h)) (h_suffix h) (length us) 0
+  sim_wait check_end inp us (h_old h) (c_end (h_prev h)) (c_stop (h_prev h)) (h_suffix h) (length us) 0
            (fun _ wait x => match (if is_input_stop inp x then is_max_wait (get_stop inp x) else None) with
                             | Some w => w <? wait | None => false end)
            (fun _ _ => true).
 
-Definition est_max_wait_vehicle (inp : input) (s : state) (mv : move) : bool :=
+Definition est_max_wait_vehicle_gen (check_end : bool) (inp : input) (s : state) (mv : move) : bool :=
   let h := hypo_of inp s mv in
   let us := unit_stops inp (mv_unit mv) in
   match iv_max_wait (get_vehicle inp (mv_vehicle mv)) with
   | None => false
   | Some w =>
-      sim_wait inp us (h_old h) (c_end (h_prev h)) (c_stop (h_prev h)) (h_suffix h) (length us)
+      sim_wait check_end inp us (h_old h) (c_end (h_prev h)) (c_stop (h_prev h)) (h_suffix h) (length us)
                (c_wait_acc (h_prev h)) (fun acc _ _ => w <? acc)
                (fun acc x => acc <=? prev_acc (h_old h) x)
   end.
+
+(* the code as it is now (after the repair) *)
+Definition est_max_wait_stop (inp : input) (s : state) (mv : move) : bool :=
+  est_max_wait_stop_gen true inp s mv.
+Definition est_max_wait_vehicle (inp : input) (s : state) (mv : move) : bool :=
+  est_max_wait_vehicle_gen true inp s mv.
+
+(* the code before the repair: the break looks at the arrival only (kept for
+   the refutation theorems of Props/C09.v) *)
+Definition est_max_wait_stop_arrival_only (inp : input) (s : state) (mv : move) : bool :=
+  est_max_wait_stop_gen false inp s mv.
+Definition est_max_wait_vehicle_arrival_only (inp : input) (s : state) (mv : move) : bool :=
+  est_max_wait_vehicle_gen false inp s mv.
 
 (* ------------------------------------------------------------------ *)
 (* max stops, attributes                                               *)
@@ -219,3 +237,21 @@ Definition move_executable (inp : input) (s : state) (mv : move) : bool :=
 (* NewMoveStops; IsExecutable; Execute *)
 Definition exec_checked (inp : input) (s : state) (mv : move) : state * result :=
   if move_executable inp s mv then exec_move inp s mv else (s, NotExecutable).
+
+(* the same gate with the max-wait estimates of the code BEFORE the repair of the
+   duration-group defect (for the refutation theorems only) *)
+Definition estimate_violated_arrival_only (inp : input) (s : state) (mv : move) : bool :=
+  (has_attributes inp && est_attributes inp s mv) ||
+  (has_capacity inp && existsb (est_capacity inp s mv) (seqn (in_nres inp))) ||
+  (has_distance_limit inp && est_distance inp s mv) ||
+  (has_latest_end inp && est_latest_end inp s mv) ||
+  (has_latest_start inp && est_latest_start inp s mv) ||
+  (has_max_stops inp && est_max_stops inp s mv) ||
+  (has_max_wait_stop inp && est_max_wait_stop_arrival_only inp s mv) ||
+  (has_max_wait_vehicle inp && est_max_wait_vehicle_arrival_only inp s mv).
+
+Definition move_executable_arrival_only (inp : input) (s : state) (mv : move) : bool :=
+  negb (unit_planned inp s (mv_unit mv)) && negb (estimate_violated_arrival_only inp s mv).
+
+Definition exec_checked_arrival_only (inp : input) (s : state) (mv : move) : state * result :=
+  if move_executable_arrival_only inp s mv then exec_move inp s mv else (s, NotExecutable).
